@@ -10,7 +10,7 @@
    and heartbeat. *)
 From Coq Require Import Lia.
 From ChitchatModel Require Import Base SMap Ids Bytes Params NodeState Stream DeltaWire Message Cluster
-  FD Chitchat World Monitors SMap_lemmas Inv Compute_lemmas NodeInv Truth NodeTruth Reach.
+  FD Chitchat World Monitors SMap_lemmas Inv Compute_lemmas NodeInv Truth NodeTruth Reach Monitors_lemmas.
 
 Section C03.
   Variable zc : bytes -> option bytes.
@@ -73,3 +73,12 @@ Print Assumptions C03_truth_is_the_owners_state.
 Print Assumptions C03_versions_identify_writes.
 Print Assumptions C03_no_invented_members.
 Print Assumptions C03_messages_carry_only_owner_writes.
+
+(* the boolean monitor evaluated on the implementation's copies (c03_ok, ledger = the owner's own
+   API calls) is the statement: every entry is a write of the owner with that key, value, version
+   and status, and the copy is not ahead of the owner *)
+Theorem C03_monitor_is_the_statement : forall L c,
+  c03_ok L c = true <->
+  (forall k v, In (k, v) (c_kvs c) -> In (entry_of k v) L) /\ c_max c <= ledger_max L.
+Proof. exact c03_ok_iff. Qed.
+Print Assumptions C03_monitor_is_the_statement.
